@@ -317,3 +317,26 @@ class tbl_init:
 
     def ensures_inv(self, name, schema, alias, columns, indexes, note, header_color, comment, abstract, properties, result):
         return tbl_inv(self)
+
+
+# ------------------------------------------------------------------------------------------ references of a table
+@contract('pydbml._classes.table:Table.get_refs')
+class tbl_get_refs:
+    """The references whose FIRST side is this table — the whole table is compared (schema, name, columns …),
+    not just its name — in database order; refused when the table has no database (C17, C02)."""
+    properties = ('C17', 'C02', 'C10')
+    params = {'self': 'Table'}
+    pure = True
+    ret = 'List[Reference]'
+    allowed = ('DBMLError', 'IndexError')       # a reference with an empty or mixed-table side (Reference._validate)
+
+    returns_proved_by = 'ensures_exactly_these'
+
+    def raises_UnknownDatabaseError(self):
+        return self.database is None
+
+    def returns(self):
+        return [r for r in self.database.refs if r.col1[0].table == self]
+
+    def ensures_exactly_these(self, result):
+        return list(result) == [r for r in self.database.refs if r.col1[0].table == self]
